@@ -5,8 +5,12 @@ import (
 	"fmt"
 	"net"
 	"os"
+	"strings"
+	"sync/atomic"
 	"syscall"
 	"time"
+
+	"verif/internal/yield"
 
 	"verif/internal/devsim"
 	"verif/internal/mon"
@@ -22,7 +26,11 @@ type Desc struct {
 	Idle     bool   `json:"idle"` // the loss is noticed by the reader before the operation starts
 	// Unsol: while idle the device prints unsolicited output ending in a prompt redraw (a syslog
 	// line) just before the connection is lost.
-	Unsol  bool       `json:"unsolicited,omitempty"`
+	Unsol bool `json:"unsolicited,omitempty"`
+	// Sched: a forced schedule (library yield points): the operation's reader is held until the read
+	// loop has met the loss, so the error overtakes the bytes still queued; while the second later
+	// operation runs, the read loop is held in front of its next error hand-over.
+	Sched  bool       `json:"sched,omitempty"`
 	Seg    devsim.Seg `json:"seg"`
 	Base   int        `json:"base"`
 	S      int        `json:"s"`
@@ -60,6 +68,25 @@ func runOp(f func() (string, error)) chan opRes {
 func run(c mon.Case) mon.Result {
 	var d Desc
 	c.Decode(&d)
+	settle := 2 * time.Millisecond
+	for attempt := 0; ; attempt++ {
+		r := runOnce(d, settle)
+		// "success after an idle loss" is only a verdict if the library had processed the error the
+		// transport reported; the harness cannot see that instant (only that the transport returned
+		// the error to the read loop), so a starved read loop looks the same. A real defect shows
+		// every time: repeat with longer settling times before believing it.
+		if r.Verdict == mon.Violated && strings.HasPrefix(r.Key, "c06/success-after-loss:") && attempt < 2 {
+			settle *= 20
+			continue
+		}
+		if attempt > 0 && r.Verdict == mon.Held {
+			r.Tags = append(r.Tags, "idle-success-not-reproduced-with-longer-settling")
+		}
+		return r
+	}
+}
+
+func runOnce(d Desc, settle time.Duration) mon.Result {
 	sc := scen.ByName(d.Scenario)
 	if sc == nil {
 		return mon.Result{Verdict: mon.Inconclusive, Detail: "unknown scenario"}
@@ -131,12 +158,36 @@ func run(c mon.Case) mon.Result {
 			if !s.Conn.SawReadErr() {
 				return mon.Result{Verdict: mon.Inconclusive, Detail: "idle: reader did not reach the fault within 2 s"}
 			}
-			time.Sleep(2 * time.Millisecond)
+			time.Sleep(settle)
 		}
 	}
 	viol := func(key, f string, a ...interface{}) mon.Result {
 		return mon.Result{Verdict: mon.Violated, Key: key, Detail: fmt.Sprintf("%s %s k=%d j=%d idle=%v unsolicited=%v (|S|=%d): ", d.Scenario, d.Kind, d.K, d.J, d.Idle, d.Unsol, d.S) + fmt.Sprintf(f, a...),
 			Events: tail(s.Conn.Log(), 40), NonTrivial: true}
+	}
+	var phase atomic.Int32 // 1: operation under test, 3: second later operation
+	if d.Sched {
+		holdFrom := d.Base + d.S - 8
+		loopGate := make(chan struct{})
+		defer close(loopGate)
+		yield.Install(func(p string) {
+			switch {
+			case p == "chan.op.read.enter" && phase.Load() == 1 && s.Conn.Delivered() >= holdFrom:
+				// the operation's reader pauses until the read loop has queued the rest and met the loss
+				dl := time.Now().Add(3 * time.Second)
+				for !s.Conn.SawReadErr() && time.Now().Before(dl) {
+					time.Sleep(200 * time.Microsecond)
+				}
+				time.Sleep(3 * time.Millisecond)
+			case p == "chan.read.before-errs-send" && phase.Load() == 3:
+				select {
+				case <-loopGate:
+				case <-time.After(3 * time.Second):
+				}
+			}
+		})
+		defer yield.Install(nil)
+		phase.Store(1)
 	}
 	t0 := time.Now()
 	var r opRes
@@ -149,6 +200,7 @@ func run(c mon.Case) mon.Result {
 		return viol("c06/hang:"+d.Scenario, "operation has not returned %s after the connection was lost (timeout is %s)\n%s", hangAfter, opTimeout, libStacks())
 	}
 	el := time.Since(t0)
+	phase.Store(2)
 	if r.pan != nil {
 		return viol("c06/panic-in-caller:"+d.Scenario, "operation panicked: %v", r.pan)
 	}
@@ -177,6 +229,48 @@ func run(c mon.Case) mon.Result {
 	}
 	tags = append(tags, "op_latency="+bucket(el))
 	// every later operation must fail too
+	later2 := func() *mon.Result {
+		if sc.Later2 == nil {
+			return nil
+		}
+		var lr opRes
+		// and one of another kind: nothing may be answered from what the driver remembered
+		w2 := s.Conn.Writes()
+		phase.Store(3)
+		select {
+		case lr = <-runOp(func() (string, error) { return sc.Later2(s) }):
+		case <-time.After(laterAfter):
+			if mon.LoadedSince(t00) {
+				r := mon.Result{Verdict: mon.Inconclusive, Detail: "second later operation not returned, machine loaded"}
+				return &r
+			}
+			r := viol("c06/later-hang:"+d.Scenario, "the second operation after the loss has not returned after %s\n%s", laterAfter, libStacks())
+			return &r
+		}
+		if lr.pan != nil {
+			r := viol("c06/panic-in-caller-later:"+d.Scenario, "second later operation panicked: %v", lr.pan)
+			return &r
+		}
+		if lr.err == nil {
+			if s.Conn.Writes() > w2 {
+				// it did talk to the transport and was satisfied by bytes queued before the loss
+				r := viol("c06/later-success:stale-bytes:"+d.Scenario, "a second operation issued after the connection was lost (and after an earlier operation had already failed) reported success (%q): it wrote to the transport and was satisfied by bytes that were queued before the loss", lr.res)
+				return &r
+			}
+			r := viol("c06/later-success:no-io:"+d.Scenario, "a second operation issued after the connection was lost reported success (%q) without touching the transport", lr.res)
+			return &r
+		}
+		obs["later2_failed"]++
+
+		return nil
+	}
+	if d.Sched && sc.Later != nil && (sc.Pre != nil || s.Opened) {
+		// forced schedule: the second kind of later operation runs first, while what the failed
+		// operation left in the queue is still there
+		if r := later2(); r != nil {
+			return *r
+		}
+	}
 	laterRan := false
 	if sc.Later != nil && (sc.Pre != nil || s.Opened) {
 		laterRan = true
@@ -198,6 +292,11 @@ func run(c mon.Case) mon.Result {
 		}
 		obs["later_failed"]++
 		tags = append(tags, "later_latency="+bucket(time.Since(t1)))
+		if !d.Sched {
+			if r := later2(); r != nil {
+				return *r
+			}
+		}
 	}
 	_ = laterRan
 	// finally the session is closed: Close after a loss is an operation too and must not hang or
@@ -302,7 +401,7 @@ func gen(tier string, seed int64) []mon.Case {
 	var cs []mon.Case
 	n := 0
 	add := func(d Desc) {
-		cs = append(cs, mon.MkCase(fmt.Sprintf("c06/%05d-%s-%s-k%d-j%d%s", n, d.Scenario, d.Kind, d.K, d.J, map[bool]string{true: "-unsol"}[d.Unsol]), d))
+		cs = append(cs, mon.MkCase(fmt.Sprintf("c06/%05d-%s-%s-k%d-j%d%s%s", n, d.Scenario, d.Kind, d.K, d.J, map[bool]string{true: "-unsol"}[d.Unsol], map[bool]string{true: "-sched"}[d.Sched]), d))
 		n++
 	}
 	segs := []devsim.Seg{{Mode: "fixed", Size: 7, Seed: seed}, {Mode: "mix", Size: 16, Seed: seed + 1, Delay: "gosched"}}
@@ -322,9 +421,12 @@ func gen(tier string, seed int64) []mon.Case {
 			add(Desc{Scenario: sc.Name, DryErr: e})
 			continue
 		}
-		for _, seg := range segs {
-			step := 1
-			for k := 0; k <= st.S; k += step {
+		scSegs := segs
+		if sc.Seg != nil {
+			scSegs = []devsim.Seg{*sc.Seg}
+		}
+		for _, seg := range scSegs {
+			for _, k := range sc.Ks(st.S) {
 				for _, kind := range []string{"eof", "err"} {
 					add(Desc{Scenario: sc.Name, Kind: kind, K: k, Seg: seg, Base: st.Base, S: st.S, Want: st.Want})
 				}
@@ -337,6 +439,11 @@ func gen(tier string, seed int64) []mon.Case {
 			}
 			for j := 1; j <= st.Writes; j++ {
 				add(Desc{Scenario: sc.Name, Kind: "write", J: j, Seg: seg, Base: st.Base, S: st.S, Want: st.Want})
+			}
+			if yield.Available && sc.Pre != nil && sc.Later2 != nil && sc.Driver != "netconf" && (sc.Name == "g.sendcommand" || sc.Name == "n.sendcommand-at-default") {
+				for _, kind := range []string{"err", "err-econnreset"} {
+					add(Desc{Scenario: sc.Name, Kind: kind, K: st.S, Sched: true, Seg: seg, Base: st.Base, S: st.S, Want: st.Want})
+				}
 			}
 			if sc.Pre != nil {
 				for _, kind := range []string{"eof", "err", "err-etimedout", "err-econnreset"} {
@@ -356,19 +463,26 @@ func init() {
 		ID:    "C06",
 		Level: "fault_enumeration",
 		Rule: "For every listed operation scenario the full exchange stream S is measured by a fault-free dry run; then for EVERY k in [0,|S|] a fresh session " +
-			"loses the connection after byte k (end-of-stream; persistent non-EOF error), for every write j of the operation the j-th write fails, and loss while idle. " +
+			"loses the connection after byte k (end-of-stream; persistent non-EOF error; for the two ~150 kB NETCONF replies k is sampled every 8191 bytes), for every write j of the operation the j-th write fails, and loss while idle. " +
 			"Non-trivial = 0<k<|S|, or write fault, or idle loss. Distinct = (scenario, kind, k/j, segmentation).",
 		Assumptions: []string{
 			"loss is modelled at the transport.Implementation boundary (devsim.Conn): Read returns io.EOF / a persistent error (a plain error, or *net.OpError wrapping ETIMEDOUT or ECONNRESET as the net package reports a vanished peer) from stream offset base+k on; Write returns an error from the j-th write on",
+			"loss while idle: 'the reader had noticed' is established from the transport model (its Read returned the error to the read loop) plus a settling time; a success there is believed only if it repeats with 20x and 400x the settling time",
+			"two forced-schedule cases (yield points, tag verif): the error overtakes queued bytes and the read loop is held before its next error hand-over - a schedule a loaded machine can produce",
 			"'promptly' is judged as <= 1.5 s against an operation timeout of 6 s, and only while the load canary is healthy",
 			"a success is accepted only if the result equals the complete result of the fault-free dry run (k=|S| or only ignorable bytes missing)",
-			"later operations are judged on error/no error only; the session is closed at the very end and Close is judged for hang/panic only (its state matrix is C07)",
+			"later operations (a command/rpc and one of another kind: get-prompt, acquire the cached privilege level, lock) are judged on error/no error only; the session is closed at the very end and Close is judged for hang/panic only (its state matrix is C07)",
 		},
-		Exhaustive:      func(tier string) bool { return true },
-		Gen:             gen,
-		Run:             run,
-		Workers:         func(string) int { return 12 },
-		Parallel:        func(string) int { return 6 },
+		Exhaustive: func(tier string) bool { return true },
+		Gen:        gen,
+		Run:        run,
+		Workers:    func(string) int { return 12 },
+		Parallel:   func(string) int { return 6 },
+		Solo: func(c mon.Case) bool {
+			var d Desc
+			c.Decode(&d)
+			return d.Sched
+		},
 		CaseTimeout:     90 * time.Second,
 		HangIsViolation: true,
 	})
